@@ -15,6 +15,8 @@ import (
 )
 
 type Clause struct {
+	Choose bool // ghost lhs :| pred
+
 	Kind  string // requires ensures invariant decreases assert ghost
 	Label string
 	Mode  string // "", "int", "bv": clause only proved/assumed in that mode
@@ -41,16 +43,22 @@ type FuncContract struct {
 	LoopDec   map[int]*Clause
 	LoopMod   map[int][]ast.Expr
 	LoopLets  map[int][]*LetDef
+	MapAll    map[int]*Clause // loop N mapall <label>: P   (every key of the ranged map satisfies P after the loop)
+	MapUse    map[int]string  // loop N mapuse <label>
 	Asserts   []*Clause
 	Ghosts    []*Clause
 	Extern    bool
 	Trusted   bool   // contract assumed for a repo function (listed in evidence)
 	Inline    bool   // always inline at call sites
 	Pure      bool
+	Functional bool // pure and heap-independent: results are a function of the arguments
 	Panics    []string // whitelisted panic message substrings
 	Line      int
 	File      string
 	SafetyOff bool
+	Nilable   map[string]bool // pointer parameters that may be nil
+	Covers    [][2]string // (callee short name, label): every call point must carry an assert with the label
+	Unchecked map[string]string
 	Unroll    int
 	Options   map[string]bool
 	Lets      []*LetDef
@@ -86,6 +94,7 @@ type SpecFn struct {
 }
 
 type LockDef struct {
+	CSLocal []string
 	Name     string // Conn.mu
 	Inv      string // predicate name (one parameter: the owner)
 	Protects []string
@@ -97,7 +106,14 @@ type ModSet struct {
 	Items  []string
 }
 
+type OnlyCallers struct {
+	Label, Callee string
+	Callers       []string
+	Line          int
+}
+
 type ContractDB struct {
+	OnlyCallers []*OnlyCallers
 	ModSets   map[string]*ModSet
 	Locks     map[string]*LockDef
 	Funcs     map[string]*FuncContract
@@ -107,6 +123,8 @@ type ContractDB struct {
 	SpecFns   map[string]*SpecFn
 	Assumes   []string // lines with assume/trusted keywords, for evidence
 	Immutable map[string]bool
+	Owners    map[string]map[string]ownerRule // struct -> field -> rule
+	Roles     map[string]string               // function key -> role
 }
 
 var reLabel = regexp.MustCompile(`^(\w+)(\[[^\]]*\])?(@\w+)?\s+(.*)$`)
@@ -166,7 +184,7 @@ func (db *ContractDB) loadFile(path string, extern bool) error {
 		}
 		switch {
 		case word == "func":
-			cur = &FuncContract{Name: rest, LoopInv: map[int][]*Clause{}, LoopDec: map[int]*Clause{}, LoopMod: map[int][]ast.Expr{}, LoopLets: map[int][]*LetDef{}, Line: ln, File: path, Extern: extern}
+			cur = &FuncContract{Name: rest, LoopInv: map[int][]*Clause{}, LoopDec: map[int]*Clause{}, LoopMod: map[int][]ast.Expr{}, LoopLets: map[int][]*LetDef{}, MapAll: map[int]*Clause{}, MapUse: map[int]string{}, Line: ln, File: path, Extern: extern}
 			if _, dup := db.Funcs[rest]; dup {
 				return fmt.Errorf("%s:%d: duplicate contract for %s", path, ln, rest)
 			}
@@ -205,6 +223,45 @@ func (db *ContractDB) loadFile(path string, extern bool) error {
 				ms.Items = append(ms.Items, it)
 			}
 			db.ModSets[m[1]] = ms
+		case word == "owners":
+			// owners Conn reader: br readErr ...   |  owners Conn lock writeErrMu: writeErr
+			i := strings.Index(rest, ":")
+			if i < 0 {
+				return fmt.Errorf("%s:%d: bad owners", path, ln)
+			}
+			hd := strings.Fields(rest[:i])
+			if len(hd) < 2 {
+				return fmt.Errorf("%s:%d: bad owners", path, ln)
+			}
+			r := ownerRule{Kind: hd[1]}
+			if r.Kind == "lock" {
+				if len(hd) != 3 {
+					return fmt.Errorf("%s:%d: owners lock needs the lock field", path, ln)
+				}
+				r.Lock = hd[2]
+			}
+			if db.Owners[hd[0]] == nil {
+				db.Owners[hd[0]] = map[string]ownerRule{}
+			}
+			for _, f := range strings.Fields(rest[i+1:]) {
+				db.Owners[hd[0]][f] = r
+			}
+		case strings.HasPrefix(word, "onlycallers"):
+			// onlycallers[label] callee: caller caller ...
+			m := regexp.MustCompile(`^\[([^\]]+)\]\s+(\S+):\s*(.*)$`).FindStringSubmatch(strings.TrimPrefix(t, "onlycallers"))
+			if m == nil {
+				return fmt.Errorf("%s:%d: bad onlycallers", path, ln)
+			}
+			db.OnlyCallers = append(db.OnlyCallers, &OnlyCallers{Label: m[1], Callee: m[2], Callers: strings.Fields(m[3]), Line: ln})
+		case word == "roles":
+			// roles reader: (*Conn).ReadMessage (*Conn).NextReader
+			i := strings.Index(rest, ":")
+			if i < 0 {
+				return fmt.Errorf("%s:%d: bad roles", path, ln)
+			}
+			for _, f := range strings.Fields(rest[i+1:]) {
+				db.Roles[f] = strings.TrimSpace(rest[:i])
+			}
 		case word == "ghostfield":
 			// ghostfield Conn.g_rd int
 			f := strings.Fields(rest)
@@ -236,8 +293,11 @@ func (db *ContractDB) loadFile(path string, extern bool) error {
 			mode := ""
 			for _, w := range f[3:] {
 				switch {
-				case w == "protects" || w == "monotone":
+				case w == "protects" || w == "monotone" || w == "cslocal":
 					mode = w
+				case mode == "cslocal":
+					// ghost counters local to a critical section: zero at every acquisition
+					ld.CSLocal = append(ld.CSLocal, w)
 				case mode == "protects":
 					ld.Protects = append(ld.Protects, w)
 				case mode == "monotone":
@@ -253,6 +313,21 @@ func (db *ContractDB) loadFile(path string, extern bool) error {
 			return fmt.Errorf("%s:%d: clause outside func block: %s", path, ln, t)
 		case word == "tags":
 			cur.Tags = append(cur.Tags, strings.Fields(rest)...)
+		case word == "nilable":
+			if cur.Nilable == nil {
+				cur.Nilable = map[string]bool{}
+			}
+			for _, f := range strings.Fields(rest) {
+				cur.Nilable[f] = true
+			}
+		case word == "cover":
+			f := strings.Fields(rest)
+			if len(f) != 2 {
+				return fmt.Errorf("%s:%d: cover <callee> <label>", path, ln)
+			}
+			cur.Covers = append(cur.Covers, [2]string{f[0], f[1]})
+		case word == "role":
+			db.Roles[cur.Name] = strings.TrimSpace(rest)
 		case word == "mode":
 			cur.Modes = strings.Fields(rest)
 		case word == "params":
@@ -265,8 +340,21 @@ func (db *ContractDB) loadFile(path string, extern bool) error {
 			cur.Inline = true
 		case word == "pure":
 			cur.Pure = true
+		case word == "functional":
+			cur.Pure = true
+			cur.Functional = true
 		case word == "nosafety":
 			cur.SafetyOff = true
+		case word == "unchecked":
+			// unchecked <kind#n>: reason -- a safety obligation left as a stated assumption
+			i := strings.Index(rest, ":")
+			if i < 0 {
+				return fmt.Errorf("%s:%d: bad unchecked", path, ln)
+			}
+			if cur.Unchecked == nil {
+				cur.Unchecked = map[string]string{}
+			}
+			cur.Unchecked[strings.TrimSpace(rest[:i])] = strings.TrimSpace(rest[i+1:])
 		case word == "option":
 			if cur.Options == nil {
 				cur.Options = map[string]bool{}
@@ -310,7 +398,7 @@ func (db *ContractDB) loadFile(path string, extern bool) error {
 		case word == "dispatch":
 			cur.Dispatch = append(cur.Dispatch, strings.Fields(rest)...)
 		case word == "bind":
-			// bind name after call:callee#k
+			// bind name[,name...] after call:callee#k   (several names: tuple components)
 			f := strings.Fields(rest)
 			if len(f) != 3 || f[1] != "after" {
 				return fmt.Errorf("%s:%d: bad bind", path, ln)
@@ -352,6 +440,21 @@ func (db *ContractDB) loadFile(path string, extern bool) error {
 			n, err := strconv.Atoi(f[0])
 			if err != nil || len(f) < 2 {
 				return fmt.Errorf("%s:%d: bad loop clause", path, ln)
+			}
+			if lt := strings.TrimSpace(f[1]); strings.HasPrefix(lt, "mapall ") {
+				i := strings.Index(lt, ":")
+				if i < 0 {
+					return fmt.Errorf("%s:%d: bad mapall", path, ln)
+				}
+				x, err := parseExprAt(strings.TrimSpace(lt[i+1:]), path, ln)
+				if err != nil {
+					return err
+				}
+				cur.MapAll[n] = &Clause{Kind: "mapall", Label: strings.TrimSpace(lt[7:i]), Expr: x, Loop: n, Line: ln, Text: lt[i+1:]}
+				continue
+			} else if strings.HasPrefix(lt, "mapuse ") {
+				cur.MapUse[n] = strings.TrimSpace(lt[7:])
+				continue
 			}
 			if lt := strings.TrimSpace(f[1]); strings.HasPrefix(lt, "let ") {
 				// loop N let name := expr   (evaluated at the loop head of each iteration)
@@ -437,11 +540,17 @@ func (db *ContractDB) loadFile(path string, extern bool) error {
 				gmode = mm[2]
 				rest = strings.Replace(rest, "@"+gmode, "", 1)
 			}
+			choose := false
 			m := regexp.MustCompile(`^(at exit|after \S+|before \S+)(?:\s+when\s+(.*?))?:\s+(.*?)\s*:=\s*(.*)$`).FindStringSubmatch(rest)
+			if m == nil {
+				// lhs :| pred  -- prophecy initialisation of a ghost field of a fresh object
+				m = regexp.MustCompile(`^(at exit|after \S+|before \S+)(?:\s+when\s+(.*?))?:\s+(.*?)\s*:\|\s*(.*)$`).FindStringSubmatch(rest)
+				choose = true
+			}
 			if m == nil {
 				return fmt.Errorf("%s:%d: bad ghost", path, ln)
 			}
-			c := &Clause{Kind: "ghost", Point: m[1], Text: m[3] + " := " + m[4], Line: ln, Mode: gmode}
+			c := &Clause{Kind: "ghost", Point: m[1], Text: m[3] + " := " + m[4], Line: ln, Mode: gmode, Choose: choose}
 			var err error
 			if m[2] != "" {
 				if c.When, err = parseExprAt(m[2], path, ln); err != nil {
@@ -484,7 +593,7 @@ func splitTopComma(s string) []string {
 }
 
 func newContractDB() *ContractDB {
-	return &ContractDB{Funcs: map[string]*FuncContract{}, Preds: map[string]*PredDef{}, SpecFns: map[string]*SpecFn{}, Immutable: map[string]bool{}, Locks: map[string]*LockDef{}, ModSets: map[string]*ModSet{}}
+	return &ContractDB{Funcs: map[string]*FuncContract{}, Preds: map[string]*PredDef{}, SpecFns: map[string]*SpecFn{}, Immutable: map[string]bool{}, Locks: map[string]*LockDef{}, ModSets: map[string]*ModSet{}, Owners: map[string]map[string]ownerRule{}, Roles: map[string]string{}}
 }
 
 func (fc *FuncContract) hasTag(t string) bool {
